@@ -30,12 +30,16 @@ def core(m):
     """The part of a monomial made of non-unit symbols (units = symbols known > 0, e.g. scalings, dt)."""
     c = _CORE_CACHE.get(m)
     if c is None:
-        U = P.POSITIVE
-        c = tuple(x for x in m if x[0] not in U)
+        c = tuple(x for x in m if not _is_unit(x[0]))
         if len(_CORE_CACHE) > 2_000_000:
             _CORE_CACHE.clear()
         _CORE_CACHE[m] = c
     return c
+
+
+def _is_unit(sid):
+    """Units of the Laurent ring: *non-atom* symbols known to be > 0 (scalings, step sizes, scales)."""
+    return sid in P.POSITIVE and P.SYMS[sid]["kind"] != "atom"
 
 
 def _key(m):
@@ -44,11 +48,10 @@ def _key(m):
 
 def _divides(lm, m):
     """Return m / lm if core(lm) | core(m); exponents of unit symbols are unrestricted (Laurent)."""
-    U = P.POSITIVE
     d = dict(m)
     for s, e in lm:
         have = d.get(s, 0)
-        if s in U:
+        if _is_unit(s):
             r = have - e
         else:
             if have < e:
@@ -251,6 +254,37 @@ def build(hyps: list[Poly], strategy: str):
             continue  # leading core not unique: orientation would not be terminating
         rules.add(lm, Hyp(p, {i: Poly(d) for i, d in combo.items()}))
     return rules, (subst if strategy == "B" else None)
+
+
+def clear_inverses(g: Poly):
+    """Multiply g by powers of the arguments of its inverse atoms r = 1/p so that no r remains:
+    returns (g', [(sid of r, p as Poly, K)]) with  g' == g * prod p^K  modulo r*p == 1."""
+    factors = []
+    for _ in range(8):
+        target = None
+        for m in g.t:
+            for s, e in m:
+                info = P.SYMS[s]
+                if info["kind"] == "atom" and info.get("atom") == "inv" and e > 0:
+                    target = s
+                    break
+            if target is not None:
+                break
+        if target is None:
+            break
+        p = P.SYMS[target]["args"][0].p
+        K = max((e for m in g.t for s, e in m if s == target), default=0)
+        out = Poly()
+        pows = {0: Poly.const(1)}
+        for j in range(1, K + 1):
+            pows[j] = pows[j - 1] * p
+        for m, c in g.t.items():
+            j = next((e for s, e in m if s == target), 0)
+            rest = tuple((s, e) for s, e in m if s != target)
+            out = out + Poly({rest: c}) * pows[K - j]
+        g = out
+        factors.append((target, p, K))
+    return g, factors
 
 
 STRATEGIES = ("A", "B", "C", "D")
